@@ -2,6 +2,7 @@ package main
 
 import (
 	"bufio"
+	"bytes"
 	"encoding/json"
 	"fmt"
 	"os"
@@ -643,8 +644,12 @@ func writeEvidence(m *Monitor, tier string, seed int64, a *Agg, nviol int, wall 
 		"wall_s":      wall,
 		"violations":  nviol,
 	}
-	b, _ := json.MarshalIndent(ev, "", " ")
+	var buf bytes.Buffer
+	enc := json.NewEncoder(&buf)
+	enc.SetEscapeHTML(false)
+	enc.SetIndent("", " ")
+	enc.Encode(ev)
 	dir := filepath.Join(verifDir(), "evidence")
 	os.MkdirAll(dir, 0o755)
-	os.WriteFile(filepath.Join(dir, m.ID+".json"), append(b, '\n'), 0o644)
+	os.WriteFile(filepath.Join(dir, m.ID+".json"), buf.Bytes(), 0o644)
 }
